@@ -180,7 +180,8 @@ def ge (a b : Version) : Bool := cmp a b != .lt
 /-- src/version/semver.rs `parse_version`: strip range prefixes (each kind
     repeatedly, in this fixed order), pad to three components, strict parse. -/
 def stripPrefixes (t : Text) : Text :=
-  t |> trimStartMatches ['>', '=']
+  t |> trimStartMatches ['~', '=']
+    |> trimStartMatches ['>', '=']
     |> trimStartMatches ['<', '=']
     |> trimStartMatches ['>']
     |> trimStartMatches ['<']
